@@ -11,6 +11,10 @@
 (*           WorkerClosedError), in order: [a |-> positional args, kw |-> <<key,value>>s]   *)
 (*   raw     every message read from worker.results_endpoint, in order (by next_result(),   *)
 (*           call() and the final drain): [c |-> counter, f |-> "T"|"F", v |-> value]       *)
+(*   got     the values the caller OBTAINED, in order: what next_result() / call() returned,  *)
+(*           what results_iter() yielded, and what the final drain of the endpoint found    *)
+(*           (raw is what was read from the endpoint: a value read but not handed out is    *)
+(*           in raw and missing in got)                                                     *)
 (*   late    outcomes ("ok" | "WCE" | "raised:X") of the enqueue attempts made after        *)
 (*           close()/wait() was called or after the death of the child (observed through    *)
 (*           the API, caused by the scenario, or established from the OS by the harness)    *)
@@ -69,8 +73,10 @@ LastInc(r) == Incs(r)[Len(Incs(r))]
 
 \* the k-th value obtained is the target applied to the merge of the k-th accepted enqueue
 StreamOK(r, I) == LET V == Valid(I.raw) IN
-   \A k \in 1..Len(V) : /\ k <= Len(I.enq)
-                        /\ ValueOK(V[k].v, r.scn.dargs, r.scn.dkw, I.enq[k])
+   /\ \A k \in 1..Len(V) : /\ k <= Len(I.enq)
+                           /\ ValueOK(V[k].v, r.scn.dargs, r.scn.dkw, I.enq[k])
+   /\ \A k \in 1..Len(I.got) : /\ k <= Len(I.enq)
+                               /\ ValueOK(I.got[k], r.scn.dargs, r.scn.dkw, I.enq[k])
 
 C05_Stream(r) == \A i \in 1..Len(Incs(r)) : StreamOK(r, Incs(r)[i])
 
@@ -80,6 +86,7 @@ C05_Count(r) == LET I == LastInc(r) IN
       /\ I.result.k = "val"
       /\ I.result.n = Len(I.enq)
       /\ Len(Valid(I.raw)) = Len(I.enq)
+      /\ Len(I.got) = Len(I.enq)
       /\ Len(Ends(I.raw)) = 1
       /\ I.raw[Len(I.raw)].f = "F"
 
